@@ -92,12 +92,17 @@ def check_pair(res, a, b, A=None, B=None):
     A = A or _mk(a)
     B = B or _mk(b)
     # union -----------------------------------------------------------------
+    # the operands have been looked at before they are combined (shape, centre, extent of both)
+    _call(res, lambda: (A.shape, A.center, A.extent, B.shape, B.center, B.extent))
     for name, fn in (('union', lambda: A.union(B)), ('or', lambda: A | B)):
         ok, u = _call(res, fn)
         if not ok:
             _V(res, 'union_raises', case, f'{name} raised {u}')
             continue
         ut = _tup(u)
+        bad = _inconsistent(u)
+        if bad:
+            _V(res, 'result_inconsistent', case, f'{name}({a},{b}) reports {bad}')
         hull = _hull(a, b)
         if not _empty(a) and not _empty(b):
             if ut != hull:
@@ -122,6 +127,9 @@ def check_pair(res, a, b, A=None, B=None):
             continue
         it = None if i is None else _tup(i)
         got.append(it)
+        bad = None if i is None else _inconsistent(i)
+        if bad:
+            _V(res, 'result_inconsistent', case, f'{name}({a},{b}) reports {bad}')
         if ref is None:
             # no common pixel: None, or a box that is the exact empty set
             if it is not None and not _empty(it):
@@ -142,6 +150,21 @@ def check_pair(res, a, b, A=None, B=None):
 
 def _iset(t):
     return t if (t is not None and not _empty(t)) else None
+
+
+def _inconsistent(box):
+    """None when shape, extent and centre of a box object agree with its own limits; else a message."""
+    t = _tup(box)
+    sh = tuple(int(v) for v in box.shape)
+    if sh != (t[3] - t[2], t[1] - t[0]):
+        return f'shape {sh} of a box with limits {t}'
+    ex = tuple(float(v) for v in box.extent)
+    if ex != (t[0] - 0.5, t[1] - 0.5, t[2] - 0.5, t[3] - 0.5):
+        return f'extent {ex} of a box with limits {t}'
+    c = tuple(Fraction(v) for v in box.center)
+    if c != (Fraction(2 * t[2] + 2 * t[3] - 2, 4), Fraction(2 * t[0] + 2 * t[1] - 2, 4)):
+        return f'center {tuple(float(v) for v in c)} of a box with limits {t}'
+    return None
 
 
 def check_triple(res, a, b, c, A=None, B=None, C=None):
@@ -389,6 +412,47 @@ def check_typed_pair(res, a, b, ta, tb):
         res.nontriv(('typed', a, b, ta, tb))
 
 
+def check_typed_extremes(res, t):
+    """Limits near the ends of a narrow numpy integer type: a valid box whose span exceeds the type's range is accepted
+    (with the right shape), limits in the wrong order are rejected with ValueError."""
+    from regions import RegionBoundingBox
+    info = np.iinfo(getattr(np, t))
+    lo, hi = int(info.min), int(info.max)
+    mid = (lo + hi) // 2
+    valid = [(lo, hi), (lo, lo + 1), (hi - 1, hi), (lo, mid), (mid, hi), (lo, lo), (hi, hi)]
+    inverted = [(hi, lo), (hi, hi - 1), (lo + 1, lo), (mid, lo), (hi, mid), (mid + 1, mid)]
+    for axis in ('x', 'y'):
+        for (p, q) in valid:
+            case = {'op': 'typed_extremes', 't': t, 'axis': axis, 'limits': [p, q]}
+            res.transitions += 1
+            args = [_conv(p, t), _conv(q, t), _conv(mid, t), _conv(mid, t)] if axis == 'x' else [_conv(mid, t), _conv(mid, t), _conv(p, t), _conv(q, t)]
+            try:
+                b = RegionBoundingBox(*args)
+            except Exception as exc:      # noqa: BLE001
+                _V(res, 'typed_raises', case, f'RegionBoundingBox with {axis} limits {t}({p}) .. {t}({q}) raised {type(exc).__name__}: {exc}')
+                continue
+            want = (0, q - p) if axis == 'x' else (q - p, 0)
+            bad = _inconsistent(b)
+            if tuple(int(v) for v in b.shape) != want or bad:
+                _V(res, 'shape_wrong', case, f'box with {axis} limits {t}({p}) .. {t}({q}): shape {tuple(int(v) for v in b.shape)}, expected {want}'
+                                             + (f'; {bad}' if bad else ''), list(want), [int(v) for v in b.shape])
+            res.nontriv(('typed_extremes', t, axis, p, q))
+        for (p, q) in inverted:
+            case = {'op': 'typed_extremes', 't': t, 'axis': axis, 'limits': [p, q]}
+            res.transitions += 1
+            args = [_conv(p, t), _conv(q, t), _conv(mid, t), _conv(mid, t)] if axis == 'x' else [_conv(mid, t), _conv(mid, t), _conv(p, t), _conv(q, t)]
+            try:
+                b = RegionBoundingBox(*args)
+            except ValueError:
+                res.outcome(('typed_extremes', t, 'inverted_rejected'))
+                continue
+            except Exception as exc:      # noqa: BLE001
+                _V(res, 'typed_raises', case, f'inverted {axis} limits {t}({p}) > {t}({q}) raised {type(exc).__name__} instead of ValueError')
+                continue
+            _V(res, 'inverted_accepted', case, f'RegionBoundingBox accepted {axis} limits {t}({p}) > {t}({q}): {b!r}', 'ValueError', repr(b))
+    res.outcome(('typed_extremes', t))
+
+
 # ---------------------------------------------------------------- driver --
 def _ranges(tier):
     if tier == 'quick':
@@ -532,6 +596,10 @@ def run_shard(shard, tier, seed):
                         res.states += 1
                         res.evaluations += 1
                         check_typed_pair(res, a, b, ta, tb)
+        for t in ('int8', 'int16', 'int32', 'uint8', 'uint16', 'uint32'):
+            res.states += 1
+            res.evaluations += 1
+            check_typed_extremes(res, t)
         res.sample({'op': 'typed', 'a': [-3, 0, -2, 1], 'b': [-2, 2, -4, 0], 'ta': 'int8', 'tb': 'int64'})
     elif k == 'typed_boxes':
         t = shard['t']
@@ -566,6 +634,8 @@ def replay(case):
         check_from_float(res, tuple(case['rect']))
     elif op == 'ctor':
         check_ctor(res, case['idx'])
+    elif op == 'typed_extremes':
+        check_typed_extremes(res, case['t'])
     elif op == 'typed':
         check_typed_pair(res, tuple(case['a']), tuple(case['b']), case['ta'], case['tb'])
     else:
